@@ -129,6 +129,9 @@ def _entry(t):
         return t[1], t[2]
     if t[0] == "get" and len(t) in (3, 4):
         return t[1], t[2]
+    if t[0] in ("call", "callv") and t[1][0] == "attr" and \
+            t[1][2] == "setdefault" and len(t[2]) == 2:
+        return t[1][1], t[2][0]
     return None
 
 
@@ -202,6 +205,24 @@ class _Model(object):
         self.G = self.L = None
         self.stale = False
         self.fill = []
+        self.dropped = []
+        # a reservation offered only as the default of setdefault() is lost
+        # when the key is already there
+        for c in ast.walk(fn):
+            if isinstance(c, ast.Call) and \
+                    isinstance(c.func, ast.Attribute) and \
+                    c.func.attr == "setdefault" and len(c.args) == 2:
+                try:
+                    n = T.cfg.node_containing(c)
+                    dflt = _kn(T.term(c.args[1], n))
+                except AnalysisError:
+                    continue
+                if any(x == ("attr", Ec, "reservation")
+                       for x in subterms(dflt)):
+                    used = getattr(c, "_parent", None)
+                    if not (isinstance(used, ast.Attribute) and
+                            used.attr in ("append", "extend")):
+                        self.dropped.append(c)
         for n, c, recv, args in method_calls(T, "append"):
             recv, args = _kn(recv), [_kn(x) for x in args]
             if args != [("attr", Ec, "reservation")]:
@@ -599,6 +620,16 @@ def r2_r3(program, rep):
     rep.check(okA, "C05-R2", inst, "alignment[resource] is the alignment of "
               "the AlignResourceConstraint of that resource (1 if none)",
               construct="alignment table", node=fn)
+    if m.dropped:
+        rep.check(False, "C05-R2", inst, "every reservation is filed",
+                  construct="reservations all filed",
+                  node=m.dropped[0],
+                  fail="a reservation is passed as the default of "
+                       "setdefault() and not appended: when the table "
+                       "already has an entry for that chip / resource the "
+                       "reservation is dropped, and ranges overlapping it "
+                       "are handed out")
+        return
     if m.G is None or m.L is None:
         raise AnalysisError("allocate: the tables the reservations are "
                             "filed in were not found in the form analysed")
